@@ -175,7 +175,7 @@ def burst_task(task, wdir, res):
             tag_of.setdefault(r["context_id"], set()).add(shard_of(r["event_id"]))
         # half of the bursts go to shard 0 (whose tag bits are all zero: anything that spills into them shows), half to a random shard
         on0 = [c for c in ctxs if tag_of.get(c) == {0}]
-        victim = rng.choice(on0) if (on0 and task.get("n", 0) % 200 == 100) else rng.choice(ctxs)
+        victim = rng.choice(on0) if (on0 and task.get("n", 0) < 5000) else rng.choice(ctxs)
         back = rng.choice([60_000, 120_000])
         now = int(node.meta("clock peek").get("now") or base)
         node.meta(f"clock auto {now - back} 1")     # the clock steps back; every read advances it by 1 ms
